@@ -3,6 +3,7 @@ package main
 import (
 	_ "verif/mc/checks/c01"
 	_ "verif/mc/checks/c02"
+	_ "verif/mc/checks/c09"
 	_ "verif/mc/checks/fmt3"
 	_ "verif/mc/checks/c13"
 	_ "verif/mc/checks/c19"
